@@ -53,8 +53,17 @@ type fakeDB struct {
 	rows    [nSlots]*row
 	fail    bool
 	version int64
-	q       map[string]int // queries per cache key during the current op
-	nf      error          // the configured not-found error of the store
+	q       map[string]int  // queries per cache key during the current op
+	nf      error           // the configured not-found error of the store
+	ctx     context.Context // context of the call in progress (nil: API without context); a dead one makes the database refuse
+}
+
+// refused: a database does not work under a context that is already done.
+func (d *fakeDB) refused() error {
+	if d.ctx != nil {
+		return d.ctx.Err()
+	}
+	return nil
 }
 
 func (d *fakeDB) pk(slot int) any {
@@ -92,6 +101,9 @@ func (d *fakeDB) newRow(slot int, name string) *row {
 // queryPrimary is the body of every primary-key query closure.
 func (d *fakeDB) queryPrimary(key string, slot int, val any) error {
 	d.q[key]++
+	if err := d.refused(); err != nil {
+		return err
+	}
 	if d.fail {
 		return errDB
 	}
@@ -105,6 +117,9 @@ func (d *fakeDB) queryPrimary(key string, slot int, val any) error {
 // queryIndex is the body of the index query closure.
 func (d *fakeDB) queryIndex(key, name string, val any) (any, error) {
 	d.q[key]++
+	if err := d.refused(); err != nil {
+		return nil, err
+	}
 	if d.fail {
 		return nil, errDB
 	}
@@ -170,6 +185,7 @@ func (d *fakeDB) freeName(name string, slot int) string {
 
 // store hides the two API flavours (cache.Cache directly / sqlc.CachedConn).
 type store interface {
+	use(ctx context.Context)                   // context of the following calls (context flavour of the API only)
 	read(key string, slot int) (row, error)    // Take / QueryRow
 	readExp(key string, slot int) (row, error) // TakeWithExpire (cache flavour; sqlc: same as read)
 	readIndex(ikey, name string, keyer func(any) string) (row, error)
@@ -197,8 +213,9 @@ type cacheStore struct {
 	lastExpire time.Duration
 }
 
-func (s *cacheStore) notFound() error { return errNF }
-func (s *cacheStore) hasIndex() bool  { return false }
+func (s *cacheStore) use(ctx context.Context) { s.ctx, s.db.ctx = ctx, ctx }
+func (s *cacheStore) notFound() error         { return errNF }
+func (s *cacheStore) hasIndex() bool          { return false }
 func (s *cacheStore) read(key string, slot int) (row, error) {
 	var v row
 	q := func(val any) error { return s.db.queryPrimary(key, slot, val) }
@@ -240,6 +257,9 @@ func (s *cacheStore) setExp(key string, v any, d time.Duration) error {
 	return s.c.SetWithExpire(key, v, d)
 }
 func (s *cacheStore) write(mut func(), fail bool, keys ...string) error {
+	if err := s.db.refused(); err != nil {
+		return err // the caller's database write was refused (dead context): nothing to invalidate
+	}
 	if fail {
 		return errDB // the caller's database write failed: nothing to invalidate
 	}
@@ -259,8 +279,9 @@ type sqlStore struct {
 	ctx context.Context
 }
 
-func (s *sqlStore) notFound() error { return sqlc.ErrNotFound }
-func (s *sqlStore) hasIndex() bool  { return true }
+func (s *sqlStore) use(ctx context.Context) { s.ctx, s.db.ctx = ctx, ctx }
+func (s *sqlStore) notFound() error         { return sqlc.ErrNotFound }
+func (s *sqlStore) hasIndex() bool          { return true }
 func (s *sqlStore) read(key string, slot int) (row, error) {
 	var v row
 	if s.ctx != nil {
@@ -308,6 +329,9 @@ func (s *sqlStore) setExp(key string, v any, d time.Duration) error {
 }
 func (s *sqlStore) write(mut func(), fail bool, keys ...string) error {
 	body := func() (sql.Result, error) {
+		if err := s.db.refused(); err != nil {
+			return nil, err
+		}
 		if fail {
 			return nil, errDB
 		}
